@@ -108,9 +108,9 @@ func init() {
 
 	otherChecks["C20"] = func(tier string, seed uint64) int {
 		t0 := time.Now()
-		n := 300
+		n := 1500
 		if tier == "thorough" {
-			n = 6000
+			n = 30000
 		}
 		results, inconclusive := runCasesSharded("C20", tier, seed, n)
 		rs := runFnSharded("C20", tier, seed, fnShards["C20"], 900)
@@ -118,7 +118,7 @@ func init() {
 		results = append(results, cases...)
 		inconclusive = append(inconclusive, inc...)
 		spec := checkSpec{Prop: "C20", Level: "exploration",
-			Rule:   "run level: generated projects with a groundwater time series (ascending dates, random gaps, plateaus, revisited levels, series starting before/after the simulation start) or polygon min/max levels with phase; the level used on every simulated day is compared with an independent interpolation / sinusoid. Function level: the public interpolation function on generated ascending series, queried at every node, both neighbours of every node, outside the span and at random interior days. evaluations = runs + function calls; non-trivial = runs >30 days with interpolated or outside days + function calls strictly between two nodes",
+			Rule:   "run level: generated projects with a groundwater time series (ascending dates, random gaps, plateaus, revisited levels, series starting before/after the simulation start; a third of them shifted so that an entry sits on, just before or just after the simulation start or the end date) or polygon min/max levels with phase; the level used on every simulated day is compared with an independent interpolation / sinusoid. Function level: the public interpolation function on generated ascending series, queried at every node, both neighbours of every node, outside the span and at random interior days. evaluations = runs + function calls; non-trivial = runs >30 days with interpolated or outside days + function calls strictly between two nodes",
 			Floors: []string{"days", "days_interpolated", "days_outside_series", "days_on_series_date", "days_polygon_mode", "queries_interpolated", "queries_on_node", "queries_before_first", "queries_after_last"}}
 		return finishCheck(spec, tier, seed, results, inconclusive, t0, nil)
 	}
